@@ -594,7 +594,7 @@ impl Session {
     fn unchoked_num(&self) -> usize {
         self.peers
             .iter()
-            .filter(|(_, peer)| peer.am_choked == false && peer.optimistic_unchoke == true)
+            .filter(|(_, peer)| peer.am_choked == false && peer.optimistic_unchoke == false)
             .count()
     }
 
